@@ -297,6 +297,7 @@ func RunCheck(cfg CheckConfig) int {
 		sc.AllSolvers = true
 	}
 	var w *World
+	var localsLock map[string]*FuncVars
 	var obls []*Obligation
 	var fev []*funcEvidence
 	results := map[string]*FuncResult{}
@@ -309,6 +310,20 @@ func RunCheck(cfg CheckConfig) int {
 			out("TOOL-ERROR: cannot load %s: %v", cfg.Repo, err)
 			// a repository that no longer type-checks cannot satisfy anything
 			return toolFailure(cfg, evPath, start, "repository does not load/type-check with -tags "+ld.tags+": "+err.Error())
+		}
+		localsPath := filepath.Join(cfg.VerifDir, "locals.lock")
+		if cfg.WriteLock {
+			if localsLock == nil {
+				localsLock = map[string]*FuncVars{}
+				if data, err := os.ReadFile(localsPath); err == nil {
+					json.Unmarshal(data, &localsLock)
+				}
+			}
+			lw.WriteLocalsLock(localsPath, ld.prefix, localsLock)
+		} else {
+			for _, n := range lw.ApplyLocalsLock(localsPath, ld.prefix) {
+				out("NOTE: %s", n)
+			}
 		}
 		lw.InitSpecs()
 		if len(lw.Errors) > 0 {
@@ -773,4 +788,102 @@ func writeReplay(cfg CheckConfig, w *World, f *Failure, all []*Failure) string {
 	data, _ := json.MarshalIndent(rec, "", " ")
 	os.WriteFile(rp, data, 0o644)
 	return rp
+}
+
+// RunAll verifies every unit under contract once (both build variants) and compares with the union of the obligation
+// baselines of all properties: the same verdict as running every property's check, at a fraction of the cost. It is used by
+// the false-alarm corpus (tools/run_benign.py); it writes no evidence and decides no single property.
+func RunAll(repo, verifDir string) int {
+	type load struct{ tags, prefix string }
+	var obls []*Obligation
+	var fails []*Failure
+	names := map[string]bool{}
+	oosFuncs := map[string]bool{}
+	for _, ld := range []load{{"verif", ""}, {"tinywasm,verif", "tinywasm:"}} {
+		w, err := Load(repo, ld.tags, filepath.Join(verifDir, "gvc", "trusted"))
+		if err != nil {
+			fmt.Printf("ALARM load %s: %v\n", ld.tags, err)
+			return 1
+		}
+		for _, n := range w.ApplyLocalsLock(filepath.Join(verifDir, "locals.lock"), ld.prefix) {
+			fmt.Println("NOTE:", n)
+		}
+		w.InitSpecs()
+		if len(w.Errors) > 0 {
+			fmt.Printf("ALARM contracts do not bind: %s\n", w.Errors[0])
+			return 1
+		}
+		var lobls []*Obligation
+		for _, k := range w.ContractedFuncs() {
+			r := w.VerifyFunc(k)
+			if r.OutOfSubset != "" {
+				fails = append(fails, &Failure{Name: ld.prefix + k + "/subset", Func: ld.prefix + k, Kind: "out-of-subset", Reason: r.OutOfSubset})
+				oosFuncs[ld.prefix+k] = true
+			}
+			for _, o := range r.Obls {
+				o.Name = ld.prefix + o.Name
+				o.Func = ld.prefix + o.Func
+			}
+			lobls = append(lobls, r.Obls...)
+		}
+		w.BG.Discharge(lobls, SolverConfig{TimeoutSec: 10, Jobs: 16})
+		obls = append(obls, lobls...)
+		if ld.prefix == "" {
+			for _, p := range []string{"C04"} {
+				obls = append(obls, w.TagObligations(p)...)
+			}
+		}
+	}
+	for _, o := range obls {
+		if o.Kind != "safety" && !o.Canary {
+			names[o.Name] = true
+		}
+	}
+	fails = append(fails, Evaluate(obls)...)
+	lock := &Lock{Properties: map[string][]string{}}
+	if data, err := os.ReadFile(filepath.Join(verifDir, "obligations.lock")); err == nil {
+		json.Unmarshal(data, lock)
+	}
+	seenWant := map[string]bool{}
+	for _, ws := range lock.Properties {
+		for _, want := range ws {
+			if seenWant[want] || names[want] {
+				continue
+			}
+			seenWant[want] = true
+			fn := want
+			if i := strings.Index(want, "/"); i >= 0 {
+				fn = want[:i]
+			}
+			if oosFuncs[fn] {
+				continue
+			}
+			fails = append(fails, &Failure{Name: want, Func: fn, Kind: "missing", Reason: "obligation of the baseline was not generated"})
+		}
+	}
+	known := map[string]bool{}
+	kf := &KnownFindings{}
+	if data, err := os.ReadFile(filepath.Join(verifDir, "known_findings.json")); err == nil {
+		json.Unmarshal(data, kf)
+	}
+	for _, f := range kf.Findings {
+		if f.Status != "fixed" {
+			known[f.Obligation] = true
+		}
+	}
+	n := 0
+	seen := map[string]bool{}
+	for _, f := range fails {
+		if known[f.Name] || seen[f.Name] {
+			continue
+		}
+		seen[f.Name] = true
+		n++
+		fmt.Printf("ALARM %s %s\n", f.Name, oneLine(f.Reason))
+	}
+	fmt.Printf("all: %d obligations, %d alarms\n", len(obls), n)
+	if n > 0 {
+		return 1
+	}
+	return 0
 }
